@@ -2,6 +2,7 @@ import LyModel.Props.C06
 import LyModel.Props.C06UO
 import LyModel.Props.C06UOList
 import LyModel.Props.C06UONb
+import LyModel.Props.C06UONest
 #print axioms LyModel.Props.C06.userord_apply_diff
 #print axioms LyModel.Props.C06.diff_self_empty
 #print axioms LyModel.Props.C06.apply_diff_partial
@@ -20,3 +21,6 @@ import LyModel.Props.C06UONb
 #print axioms LyModel.Props.C06UO.diff_userord_ll_neighbours_sim
 #print axioms LyModel.Props.C06UO.apply_diff_userord_ll_neighbours
 #print axioms LyModel.Props.C06UO.apply_diff_userord_ll_neighbours_dec
+#print axioms LyModel.Props.C06UO.diff_userord_ll_in_container_sim
+#print axioms LyModel.Props.C06UO.apply_diff_userord_ll_in_container
+#print axioms LyModel.Props.C06UO.apply_diff_userord_ll_in_container_dec
